@@ -272,6 +272,20 @@ def call(ex, n, st, q, rd, objn, argn, method, want_lv):
                     v = ex.load(LObj(v), st)
                 return v
             return complex_binop(ex, name[8:], cv(objn), cv(argn[0]))
+    if name in ('operator==', 'operator!=') and len(argn) == 1:
+        t2 = argn[0].get('type', {}).get('desugaredQualType') or argn[0].get('type', {}).get('qualType', '')
+        if pod_of(ots) == 'complex' or pod_of(t2) == 'complex':
+            # std::complex comparison: both parts equal (a real operand has imaginary part 0)
+            def cv2(nd):
+                v = ex.ev_obj(nd, st) if nd.get('valueCategory') == 'lvalue' and pod_of(nd.get('type', {}).get('desugaredQualType') or nd.get('type', {}).get('qualType', '')) else ex.ev(nd, st)
+                if isinstance(v, ObjRef):
+                    v = ex.load(LObj(v), st)
+                return v
+            a_, b_ = cv2(objn), cv2(argn[0])
+            pr = lambda v: (v.fields['re'].t, v.fields['im'].t) if isinstance(v, StructV) else (real(v), z3.RealVal(0))
+            (ar, ai), (br, bi) = pr(a_), pr(b_)
+            eq = z3.And(ar == br, ai == bi)
+            return BoolV(eq if name == 'operator==' else z3.Not(eq))
     if strip_quals(ots).startswith(('std::normal_distribution', 'std::uniform_real_distribution')) and name == 'operator()':
         # random draw: an unconstrained real (recorded so that posts can name it)
         r = State.fresh('random', z3.RealSort())
